@@ -196,6 +196,22 @@ impl Encoder for Codec {
     type Error = EncodeError;
 
     fn encodev(&self, item: Self::Item, dst: &mut BytePages) -> Result<(), EncodeError> {
+        let len = dst.len();
+        self.encode_item(item, dst).inspect_err(|_| rollback(dst, len))
+    }
+}
+
+/// Failed encode must not leave partially written packet in the buffer
+fn rollback(dst: &mut BytePages, len: usize) {
+    if dst.len() > len {
+        let mut written = dst.split_to(len);
+        dst.clear();
+        written.move_to(dst);
+    }
+}
+
+impl Codec {
+    fn encode_item(&self, item: Encoded, dst: &mut BytePages) -> Result<(), EncodeError> {
         match item {
             Encoded::Packet(pkt) => {
                 if self.encoding_payload.get().is_some() {
